@@ -1874,3 +1874,158 @@ func intKeysOf(m map[int]bool) []int {
 	sort.Ints(out)
 	return out
 }
+
+// ---------------------------------------------------------------------------
+// R-ANYSUB: "the class matches everything" (IsAnything / the anything flag)
+// is a statement about the BASE of a class; [\s\S-[a]] is anything minus a.
+// A transformation that has to reach the subtraction as well (the methods
+// that recurse into c.sub: addCaseEquivalences, addLowercase …) may therefore
+// not be skipped because the base is anything — unless the same condition
+// also asks about the subtraction.
+// ---------------------------------------------------------------------------
+
+func RAnySub(c *core.Ctx) {
+	c.Rule("R-ANYSUB", "no call of a CharSet method that propagates to the subtraction (one that calls itself on c.sub) stands under a condition that tests IsAnything() / the anything flag without also consulting the subtraction (HasSubtraction, .sub): 'anything' describes the base only", 2)
+	p := c.P
+	syn := p.Pkg("syntax")
+	info := syn.TypesInfo
+	subF := p.LookupField("syntax", "CharSet", "sub")
+	anyF := p.LookupField("syntax", "CharSet", "anything")
+	isAny := p.LookupFunc("syntax", "CharSet.IsAnything")
+	hasSub := p.LookupFunc("syntax", "CharSet.HasSubtraction")
+	if subF == nil || anyF == nil || isAny == nil {
+		c.Anchor("CharSet.sub / CharSet.anything / CharSet.IsAnything")
+		return
+	}
+	// methods that recurse into the subtraction with themselves
+	prop := map[*types.Func]bool{}
+	for _, fd := range p.FuncDecls(syn) {
+		if fd.Body == nil || fd.Recv == nil {
+			continue
+		}
+		self, _ := info.Defs[fd.Name].(*types.Func)
+		if self == nil {
+			continue
+		}
+		if _, nm := core.NamedOf(self.Type().(*types.Signature).Recv().Type()); nm != "CharSet" {
+			continue
+		}
+		ast.Inspect(fd.Body, func(x ast.Node) bool {
+			call, ok := x.(*ast.CallExpr)
+			if !ok || core.Callee(info, call) != self {
+				return true
+			}
+			if sel, ok := call.Fun.(*ast.SelectorExpr); ok && core.FieldOf(info, sel.X) == subF {
+				prop[self] = true
+			}
+			return true
+		})
+	}
+	// ... and that change the class (observers such as equals answer conservatively when they stop early)
+	var mutates func(f *ssa.Function, depth int) bool
+	mutates = func(f *ssa.Function, depth int) bool {
+		if f == nil || len(f.Params) == 0 || depth > 2 {
+			return false
+		}
+		for _, b := range f.Blocks {
+			for _, ins := range b.Instrs {
+				switch x := ins.(type) {
+				case *ssa.Store:
+					if fa, ok := x.Addr.(*ssa.FieldAddr); ok && fa.X == ssa.Value(f.Params[0]) {
+						return true
+					}
+				case *ssa.Call:
+					if cal := x.Call.StaticCallee(); cal != nil && core.InModule(cal) && len(x.Call.Args) > 0 && x.Call.Args[0] == ssa.Value(f.Params[0]) && cal != f && mutates(cal, depth+1) {
+						return true
+					}
+				}
+			}
+		}
+		return false
+	}
+	for fn := range prop {
+		if !mutates(p.SSAFunc(fn), 0) {
+			delete(prop, fn)
+		}
+	}
+	if len(prop) == 0 {
+		c.Anchor("CharSet methods that call themselves on c.sub")
+		return
+	}
+	n := 0
+	for _, fd := range p.FuncDecls(syn) {
+		if fd.Body == nil || p.IsTestFile(fd.Pos()) {
+			continue
+		}
+		name := core.DeclName(syn, fd)
+		var g *core.Graph
+		ord := 0
+		ast.Inspect(fd.Body, func(x ast.Node) bool {
+			call, ok := x.(*ast.CallExpr)
+			if !ok || !prop[core.Callee(info, call)] {
+				return true
+			}
+			if sel, ok := call.Fun.(*ast.SelectorExpr); ok && core.FieldOf(info, sel.X) == subF {
+				return true // the recursion itself
+			}
+			if g == nil {
+				g = core.NewGraph(info, fd.Body)
+			}
+			n++
+			ord++
+			c.Visit(name)
+			bad := ""
+			var conds []ast.Expr
+			if b, _ := g.BlockOf(call); b != nil {
+				for _, f := range g.FactsAt(b) {
+					conds = append(conds, f.Cond)
+				}
+			}
+			if st := enclosingStmt(fd.Body, call); st != nil {
+				if b, _ := g.BlockOf(st); b != nil {
+					for _, f := range g.FactsAt(b) {
+						conds = append(conds, f.Cond)
+					}
+				}
+			}
+			for _, cond := range conds {
+				any, sub := false, false
+				ast.Inspect(cond, func(y ast.Node) bool {
+					switch z := y.(type) {
+					case *ast.CallExpr:
+						fn := core.Callee(info, z)
+						if fn == isAny {
+							any = true
+						}
+						if fn != nil && fn == hasSub {
+							sub = true
+						}
+					case *ast.SelectorExpr:
+						switch core.FieldOf(info, z) {
+						case anyF:
+							any = true
+						case subF:
+							sub = true
+						}
+					}
+					return true
+				})
+				if any && !sub {
+					bad = types.ExprString(cond)
+				}
+			}
+			// inside CharSet's own methods the flag is tested on the receiver and the method goes on to c.sub itself (R-SUBFIRST)
+			if fd.Recv != nil {
+				if self, _ := info.Defs[fd.Name].(*types.Func); self != nil && prop[self] {
+					bad = ""
+				}
+			}
+			c.Check(bad == "", fmt.Sprintf("%s / call #%d of %s is not skipped on 'anything' alone", name, ord, core.Callee(info, call).Name()), call.Pos(),
+				"the call stands under `%s`: a class whose base is anything can still have a subtraction ([\\s\\S-[a]]), which this transformation has to reach", bad)
+			return true
+		})
+	}
+	if n == 0 {
+		c.Anchor("calls of subtraction-propagating CharSet methods")
+	}
+}
